@@ -31,7 +31,7 @@ func (prop) Run(c core.Case) core.Outcome {
 
 func (prop) Gen(r *rand.Rand, tier string) []core.Case {
 	if tier == "thorough" {
-		return append(append(append(ue.ExhaustiveCases(3), ue.WrapperCases()...), bigCases()...), ue.RandomCases(r, 20000, false)...)
+		return append(append(append(ue.ExhaustiveCases(3), append(ue.WrapperCases(), ue.TailCases()...)...), bigCases()...), ue.RandomCases(r, 20000, false)...)
 	}
-	return append(append(append(ue.ExhaustiveCases(1), ue.WrapperCases()...), bigCases()...), ue.RandomCases(r, 400, false)...)
+	return append(append(append(ue.ExhaustiveCases(1), append(ue.WrapperCases(), ue.TailCases()...)...), bigCases()...), ue.RandomCases(r, 400, false)...)
 }
